@@ -108,6 +108,12 @@ var skModules = []skModule{
 		{"cache", []string{"utils/cache/ordered.go"}},
 		{"lps", []string{"x/eibc/keeper/lps.go"}},
 	}},
+	// --- identifiers handed out in events / messages (C19) and the order type's own methods (C05)
+	{"EibcT", []skGroup{
+		{"t", []string{"x/eibc/types/demand_order.go"}},
+		{"da", []string{"x/delayedack/types/msgs.go", "x/delayedack/types/rollapp_packets_list_filter.go"}},
+		{"cm", []string{"x/common/types/key_rollapp_packet.go"}},
+	}},
 	{"Lockup", []skGroup{
 		{"k", []string{
 			"x/lockup/keeper/lock.go", "x/lockup/keeper/msg_server.go", "x/lockup/keeper/lock_refs.go",
